@@ -211,15 +211,20 @@ def guards_strict(repo: Repo, rep: Report) -> None:
     fn = mod.func("SegmentationBuilder2D.candidates")
     rep.saw(SEG, "SegmentationBuilder2D.candidates")
     sites: List[Tuple[ast.AST, G.Facts, str]] = []  # (proposed value, facts, partition parameter)
+    move_values: List[Tuple[ast.AST, G.Facts, str]] = []
     G.register_predicates({q: f for q, f in mod.funcs.items() if q.startswith("SegmentationBuilder2D.") or "." not in q})
 
-    def walk(f: ast.FunctionDef, cur: Optional[str]) -> None:
+    callsites: Dict[str, List[Tuple[ast.Call, G.Facts]]] = {}
+
+    def walk(f: ast.FunctionDef, cur: Optional[str], entry: Optional[G.Facts] = None) -> None:
         params = [a.arg for a in f.args.args if a.arg != "self"]
         cur_here = cur if cur in [a.arg for a in f.args.args] or not params else None
         if cur_here is None and params:
             cur_here = params[0]
 
         def on_expr(n: ast.AST, facts: G.Facts) -> None:
+            if isinstance(n, ast.Call) and isinstance(n.func, ast.Attribute) and isinstance(n.func.value, ast.Name) and n.func.value.id == "self":
+                callsites.setdefault(n.func.attr, []).append((n, facts))
             if isinstance(n, ast.Call) and isinstance(n.func, ast.Attribute) and n.func.attr in ("append", "add") and len(n.args) == 1:
                 v = n.args[0]
                 if isinstance(v, ast.IfExp) and isinstance(v.body, ast.Tuple) and isinstance(v.orelse, ast.Tuple) and \
@@ -227,26 +232,73 @@ def guards_strict(repo: Repo, rep: Report) -> None:
                     v = v.body  # (i, j) if i < j else (j, i): the same pair either way
                 if isinstance(v, ast.Tuple) and len(v.elts) == 2:
                     sites.append((v, facts, cur_here or "current"))
+            # the value of a move wherever it is built (e.g. returned by a helper and appended by its caller):
+            # [[p for p in D if p != c], R + [c]]
+            if isinstance(n, ast.List) and len(n.elts) == 2 and isinstance(n.elts[0], ast.ListComp) and len(n.elts[0].generators) == 1 \
+                    and len(n.elts[0].generators[0].ifs) == 1 and isinstance(n.elts[0].generators[0].ifs[0], ast.Compare) \
+                    and isinstance(n.elts[0].generators[0].ifs[0].ops[0], ast.NotEq) and isinstance(n.elts[1], ast.BinOp) \
+                    and isinstance(n.elts[1].op, ast.Add) and isinstance(n.elts[1].right, ast.List) and len(n.elts[1].right.elts) == 1:
+                move_values.append((n, facts, cur_here or "current"))
 
         def on_nested(nfn: ast.FunctionDef, _f: G.Facts) -> None:
             walk(nfn, cur_here)
 
-        G.Walker(on_expr=on_expr, on_nested=on_nested).run_function(f)
+        G.Walker(on_expr=on_expr, on_nested=on_nested).run_function(f, entry)
 
-    seen_m = {"candidates"}
+    # the helper methods reachable from candidates() through self.<m>(...)
+    reach: Dict[str, ast.FunctionDef] = {"candidates": fn}
     todo = [fn]
-    walk(fn, None)
     while todo:
         c = todo.pop()
         for n in ast.walk(c):
             if isinstance(n, ast.Call) and isinstance(n.func, ast.Attribute) and isinstance(n.func.value, ast.Name) and n.func.value.id == "self":
                 q = f"SegmentationBuilder2D.{n.func.attr}"
-                if n.func.attr not in seen_m and mod.has_func(q):
-                    seen_m.add(n.func.attr)
-                    helper = mod.func(q)
+                if n.func.attr not in reach and mod.has_func(q):
+                    reach[n.func.attr] = mod.func(q)
                     rep.saw(SEG, q)
-                    walk(helper, None)
-                    todo.append(helper)
+                    todo.append(reach[n.func.attr])
+    callers: Dict[str, Set[str]] = {m: set() for m in reach}
+    for m, f_ in reach.items():
+        for n in ast.walk(f_):
+            if isinstance(n, ast.Call) and isinstance(n.func, ast.Attribute) and isinstance(n.func.value, ast.Name) and n.func.value.id == "self" \
+                    and n.func.attr in reach and n.func.attr != m:
+                callers[n.func.attr].add(m)
+
+    def entry_facts(m: str) -> Optional[G.Facts]:
+        """what holds at every call of helper m, restricted to what still means the same inside it: facts over `self.<attr>` and over
+        the parameters that every call passes under their own name (a guard such as `if n > self.min_num_blocks:` around the call)"""
+        calls = callsites.get(m, [])
+        if not calls:
+            return None
+        f_ = reach[m]
+        params = [a.arg for a in f_.args.args if a.arg != "self"]
+        same = set(params)
+        for call, _facts in calls:
+            passed = {p: a for p, a in zip(params, call.args)}
+            passed.update({k.arg: k.value for k in call.keywords if k.arg})
+            same &= {p for p, a in passed.items() if isinstance(a, ast.Name) and a.id == p}
+        acc: Optional[G.Facts] = None
+        for _call, facts in calls:
+            acc = facts if acc is None else acc.join(facts)
+        assert acc is not None
+        # names assigned in the helper, and parameters bound to something else, mean something different inside
+        local = {n.id for n in ast.walk(f_) if isinstance(n, ast.Name) and isinstance(n.ctx, ast.Store)} | (set(params) - same)
+        acc = acc.havoc(local)
+        # caller locals that are not parameters of the helper are out of scope: keep them only through their definitions
+        return acc
+
+    walked: Set[str] = set()
+    order = ["candidates"]
+    pending = [m for m in reach if m != "candidates"]
+    while pending:
+        ready = [m for m in pending if callers[m] <= set(order)]
+        nxt = ready[0] if ready else pending[0]
+        order.append(nxt)
+        pending.remove(nxt)
+    for m in order:
+        ent = entry_facts(m) if m != "candidates" and callers[m] <= walked else None
+        walk(reach[m], None, ent)
+        walked.add(m)
 
     kinds = {"merge": 0, "split": 0, "move": 0}
 
@@ -254,6 +306,13 @@ def guards_strict(repo: Repo, rep: Report) -> None:
         L.SYMINFO[f"len({text})"] = ("len", text)
         return L.sym(f"len({text})")
 
+    # a move value that is not written directly inside an appended tuple is a site of its own (the index pair is not needed)
+    inside = {id(v.elts[1]) for v, _f, _c in sites if isinstance(v, ast.Tuple) and len(v.elts) == 2}
+    for mv, facts_mv, cur_mv in move_values:
+        if id(mv) not in inside:
+            pair = ast.Tuple(elts=[ast.List(elts=[ast.Name(id="_", ctx=ast.Load()), ast.Name(id="_", ctx=ast.Load())], ctx=ast.Load()), mv], ctx=ast.Load())
+            pair.lineno = getattr(mv, "lineno", 0)  # type: ignore[attr-defined]
+            sites.append((pair, facts_mv, cur_mv))
     for val, facts, cur in sites:
         pr = G.Prover(facts)
         nb = ln(cur)
